@@ -11,7 +11,7 @@ use crate::world_grp::{alphabet_scalar, fr_of, Grp, LibG};
 use num_bigint::BigUint;
 use num_traits::{One, Zero};
 use serde::{Deserialize, Serialize};
-use sm9_core::{AffineG1, AffineG2, Fq, Fq2, Group, G1, G2};
+use sm9_core::{AffineG1, AffineG2, Fq, Fq2, G1, G2};
 
 #[derive(Clone, Debug, PartialEq, Eq, Serialize, Deserialize)]
 pub enum Repr {
@@ -172,7 +172,7 @@ fn gen_repr(pr: &mut Prng, g: Grp) -> Repr {
 
 fn gen_lambda(pr: &mut Prng, g: Grp) -> String {
     let q = model::q();
-    let mut pick = |pr: &mut Prng| -> BigUint {
+    let pick = |pr: &mut Prng| -> BigUint {
         match pr.below(7) {
             5 | 6 => crate::world_grp::special_fq(pr),
             0 => q - 1u32,
